@@ -81,6 +81,12 @@ func configs(thorough bool) []Config {
 			}
 		}
 	}
+	if strings.Contains(os.Getenv("C17_EXTRA"), "closepanic") {
+		// not part of the check: a resource whose Close panics
+		for stops := 0; stops <= 1; stops++ {
+			out = append(out, Config{End: "done", Mix: "closepanic", Stops: stops})
+		}
+	}
 	for stops := 1; stops <= 3; stops++ {
 		out = append(out, Config{End: "done", Mix: "plain", Stops: stops, NoRun: true})
 	}
@@ -1033,10 +1039,15 @@ func TestCrashProbe(t *testing.T) {
 const lateN = 48
 
 func lateConfigs() []Config {
-	return []Config{
+	out := []Config{
 		{End: "done", Mix: "nested", Stops: 0, Late: true, Skip1: true},
 		{End: "done", Mix: "nested", Stops: 1, Late: true, Skip1: true},
 	}
+	if strings.Contains(os.Getenv("C17_EXTRA"), "late-alive") {
+		// not part of the check: the same schedule with a nested system that stays alive (Abort's other coin)
+		out = append(out, Config{End: "done", Mix: "nested", Stops: 0, Late: true, Skip1: true, NestedKind: "alive"})
+	}
+	return out
 }
 
 // lateScript forces the schedule: let virtual time pass when it is first offered (the read times out), then
@@ -1063,7 +1074,52 @@ func (l *lateScript) pick(n int, label string) int {
 func (l *lateScript) Choose(n int, label string) int  { return l.pick(n, label) }
 func (l *lateScript) Deviate(n int, label string) int { return l.pick(n, label) }
 
+// TestLate (child process): the repeated late-answer schedule; a process death stays in the child.
+func TestLate(t *testing.T) {
+	js := os.Getenv("C17_LATE")
+	if js == "" {
+		t.Skip("child of TestCheck")
+	}
+	var r replayCase
+	if err := json.Unmarshal([]byte(js), &r); err != nil {
+		t.Fatal(err)
+	}
+	f, rep := lateRoundsHere(t, r.Cfg, r.Rounds)
+	b, _ := json.Marshal(map[string]any{"fail": f, "report": rep})
+	fmt.Printf("LATE-RESULT %s\n", b)
+}
+
 func lateRounds(t *testing.T, cfg Config, rounds int) (*Failure, map[string]any) {
+	self := os.Getenv("VERIF_SELF")
+	if self == "" {
+		self = os.Args[0]
+	}
+	js, _ := json.Marshal(replayCase{Cfg: cfg, Rounds: rounds})
+	cmd := exec.Command(self, "-test.run", "^TestLate$", "-test.v", "-test.count", "1", "-test.timeout", "600s")
+	cmd.Env = append(os.Environ(), "C17_LATE="+string(js), "VERIF_OUT=", "VERIF_REPLAY=", "GOMAXPROCS=1")
+	b, err := cmd.CombinedOutput()
+	txt := string(b)
+	for _, l := range strings.Split(txt, "\n") {
+		if strings.HasPrefix(l, "LATE-RESULT ") {
+			var o struct {
+				Fail   *Failure       `json:"fail"`
+				Report map[string]any `json:"report"`
+			}
+			if json.Unmarshal([]byte(strings.TrimPrefix(l, "LATE-RESULT ")), &o) == nil {
+				return o.Fail, o.Report
+			}
+		}
+	}
+	rep := map[string]any{"config": cfg.Name(), "rounds": rounds, "exit": fmt.Sprint(err)}
+	if key, first, ok := crashKey(txt); ok {
+		rep["panic"] = first
+		return &Failure{"late-answer/" + key, "the process dies during the late-answer schedule: " + first + " [config " + cfg.Name() + "]"}, rep
+	}
+	rep["output_tail"] = txt[max(0, len(txt)-600):]
+	return nil, rep // the child did not work: not a verdict
+}
+
+func lateRoundsHere(t *testing.T, cfg Config, rounds int) (*Failure, map[string]any) {
 	rep := map[string]any{"config": cfg.Name(), "rounds": rounds}
 	reached, failed := 0, 0
 	var first *Failure
